@@ -11,7 +11,7 @@ CONSTANTS
   ArithXVals = {1, 2, 3, 4, 5, 6, 7, 8, 9, 10, 11, 12, 13, 14, 15, 16, 17, 18, 19, 20, 21}
   CompN = 3
   CompD = 3
-INVARIANT FnTotal PermutationClosure GeneConservation ArithConvex SwapMovesChosen TranslocateShape TwinSwap TwinTranslocate MultiPointTailSwaps CycleWhole ArithXConvex ArithXEnds ArithXAccepts ArithXRejects
-INVARIANT RelAccepts RelRejects CompNoFailure CompPermutationClosure CompDimensionKept CompRateZero CompRateZeroReal CompOffspringCount CompDEFormat CompGenesFromParents CompDEGenes CompStackKept CompOwnParameters CompInvalidRejected CompStrengthBound CompCtorVariant
+INVARIANT FnTotal PermutationClosure GeneConservation ArithConvex SwapMovesChosen TranslocateShape TwinSwap TwinTranslocate MultiPointTailSwaps CycleWhole ArithXConvex ArithXEnds ArithXAccepts ArithXRejects MultiPointUAccepts MultiPointUTwin MultiPointURejects
+INVARIANT RelAccepts RelRejects ArithRejects CompNoFailure CompPermutationClosure CompDimensionKept CompRateZero CompRateZeroReal CompOffspringCount CompDEFormat CompGenesFromParents CompDEGenes CompStackKept CompOwnParameters CompInvalidRejected CompStrengthBound CompCtorVariant CompGenesConserved
 ACTION_CONSTRAINT PrintCase
 CHECK_DEADLOCK FALSE
